@@ -8,6 +8,7 @@ verus! {
 //@include ../shim/order.rs
 //@include ../shim/ndarr.rs
 //@include ../shim/skipnan.rs
+//@include ../shim/foldaxis.rs
 
 impl<A: MaybeNan, D: Dimension> ArrayN<A, D> {
 //@extract file=src/maybe_nan/mod.rs impl=MaybeNanExt:ArrayBase fn=fold_skipnan id=fold_skipnan tags=C14 body_tags=C14 lower=fold
@@ -94,6 +95,60 @@ impl<A: MaybeNan, D: Dimension> ArrayN<A, D> {
                 forall|k: int| 0 <= k < it.index@ ==> visit_step::<A, F>(f0, *#[trigger] __fos[k]), // [C14]
 //@at after_loop 0
         proof { assert((&*self).fold_items_ok(__fos)); assert(forall|k: int| 0 <= k < __fos.len() ==> visit_step::<A, F>(f0, *#[trigger] __fos[k])); }
+//@end
+
+//@extract file=src/maybe_nan/mod.rs impl=MaybeNanExt:ArrayBase fn=fold_axis_skipnan id=fold_axis_skipnan tags=C14 body_tags=C14 lower=fold_axis
+//@sig
+    fn fold_axis_skipnan<B, F>(&self, axis: Axis, init: B, mut fold: F) -> (r: ArrayN<B, D::Smaller>)
+    where
+        D: RemoveAxis,
+        F: FnMut(&B, &A::NotNan) -> B,
+        B: Clone,
+//@spec
+        requires forall|acc: &B, x: &A::NotNan| #[trigger] call_requires(fold, (acc, x)),
+        ensures
+            // one result per lane: the accumulator started from init and threaded through the elements of the lane in axis
+            // order, cloned unchanged over a missing element and through fold, with the not-NaN value, over every other one
+            r@.len() == self.lanes(axis.0 as int).len(), // [C14]
+            forall|j: int| 0 <= j < r@.len() ==> lane_fold::<A, B, F>(fold, init, self.lanes(axis.0 as int)[j], #[trigger] r@[j]), // [C14]
+//@at entry
+        let ghost f0 = fold; let ghost l0 = self.lanes(axis.0 as int); let ghost nl = l0.len() as int;
+//@loop 0
+            invariant
+                forall|acc: &B, x: &A::NotNan| #[trigger] call_requires(fold, (acc, x)),
+                forall|acc: &B, x: &A::NotNan, out: B| #[trigger] call_ensures(fold, (acc, x), out) <==> call_ensures(f0, (acc, x), out),
+                it.seq() == __lzs, __lzs.len() == nl, self.lanes(axis.0 as int) == l0, nl == l0.len(),
+                forall|k: int| 0 <= k < nl ==> #[trigger] __lzs[k] < nl,
+                forall|k1: int, k2: int| 0 <= k1 < k2 < nl ==> __lzs[k1] != __lzs[k2],
+                forall|j: int| 0 <= j < nl ==> #[trigger] visits(__lzs, j),
+                __res.slots().len() == nl,
+                forall|k: int| 0 <= k < it.index@ ==> (#[trigger] __res.slots()[__lzs[k] as int]) is Some && lane_fold::<A, B, F>(f0, init, l0[__lzs[k] as int], __res.slots()[__lzs[k] as int]->Some_0), // [C14]
+//@at loop_start 0
+            proof { assert(__j == __lzs[it.index@]); }
+            let ghost mut accs: Seq<B> = seq![__a]; let ghost lane = l0[__j as int];
+//@loop 1
+                invariant
+                    forall|acc: &B, x: &A::NotNan| #[trigger] call_requires(fold, (acc, x)),
+                    forall|acc: &B, x: &A::NotNan, out: B| #[trigger] call_ensures(fold, (acc, x), out) <==> call_ensures(f0, (acc, x), out),
+                    it2.seq() == __lis, __lis.len() == lane.len(), forall|k: int| 0 <= k < lane.len() ==> *(#[trigger] __lis[k]) == lane[k],
+                    accs.len() == it2.index@ + 1, is_init_copy(init, accs[0]), accs[it2.index@ as int] == __a,
+                    forall|k: int| 0 <= k < it2.index@ ==> skip_step_ref::<A, B, F>(f0, #[trigger] accs[k], lane[k], accs[k + 1]), // [C14]
+//@at loop_end 1
+                proof { accs = accs.push(__a); }
+//@at loop_tail 0
+            proof {
+                assert(accs.len() == lane.len() + 1 && accs[lane.len() as int] == __a);
+                assert(forall|k: int| 0 <= k < lane.len() ==> skip_step_ref::<A, B, F>(f0, #[trigger] accs[k], lane[k], accs[k + 1]));
+                assert(lane_fold::<A, B, F>(f0, init, lane, __a));
+            }
+//@at after_loop 0
+        proof {
+            assert forall|j: int| 0 <= j < nl implies (#[trigger] __res.slots()[j]) is Some && lane_fold::<A, B, F>(f0, init, l0[j], __res.slots()[j]->Some_0) by {
+                assert(visits(__lzs, j));
+                let k = choose|k: int| 0 <= k < __lzs.len() && __lzs[k] == j;
+                assert(__res.slots()[__lzs[k] as int] is Some);
+            }
+        }
 //@end
 
 //@extract file=src/quantile/mod.rs impl=QuantileExt:ArrayBase fn=min_skipnan id=min_skipnan tags=C14 body_tags=C14
